@@ -90,9 +90,11 @@ def generate(prop, rng):
     staged = {}  # store -> set of tree idx known complete (generator's guess; executor re-checks)
     nops = rng.randint(3, 12)
     weights = {
-        "C01": [(5, "stage"), (2, "stage_file"), (3, "xfer"), (3, "index_save"), (2, "migrate"), (1, "gc"), (1, "edit")],
+        "C01": [(5, "stage"), (2, "stage_file"), (3, "xfer"), (3, "index_save"), (2, "migrate"), (1, "gc"), (1, "edit"),
+                (2, "stage_defer"), (2, "xfer_deferred"), (1, "edit_disk")],
         "C02": [(5, "stage"), (2, "stage_file"), (2, "xfer"), (3, "index_save"), (1, "migrate"), (5, "checkout"), (1, "edit"),
-                (2, "evict")],  # another client's gc removes an object; staging again through the long-lived handle restores it
+                (2, "evict"),  # another client's gc removes an object; staging again through the long-lived handle restores it
+                (2, "stage_defer"), (2, "xfer_deferred"), (1, "edit_disk")],
         "C06": [(5, "stage"), (1, "stage_file"), (2, "xfer"), (2, "index_save"), (1, "migrate"), (6, "gc"), (2, "evict"), (2, "ext_add")],
     }[prop]
     for n in range(nops):
@@ -158,6 +160,15 @@ def generate(prop, rng):
                       reuse_dest=rng.random() < 0.3, twice=rng.random() < 0.3)
         elif kind == "edit":
             op.update(tree=ti, content=rng.randrange(len(pool)), name=rng.choice(gen.NAMES))
+        elif kind == "stage_defer":
+            # build now, transfer later (other stagings and other people's edits may come in between)
+            s_ = rng.choice(md5_stores)
+            op.update(tree=ti, store=s_)
+        elif kind == "xfer_deferred":
+            op.update(pick=rng.random())
+        elif kind == "edit_disk":
+            # somebody rewrites a file of a workspace directory on disk right now
+            op.update(tree=ti, pick=rng.random(), tag=rng.randrange(10**6))
         elif kind == "ext_add":
             # another client (its own handle) adds objects nobody here refers to, possibly under fan-out
             # directories this process' long-lived handle has never listed
@@ -187,6 +198,18 @@ def generate(prop, rng):
             # a second writer rewrites a workspace file while the upload staging is between two reads
             op["mid_edit"] = {"after_reads": rng.randrange(12), "pick": rng.random(), "content": rng.randrange(len(pool))}
         ops.append(op)
+    if prop in ("C01", "C02") and ntrees > 1 and rng.random() < 0.2:
+        # motif: a staging kept for later, another directory (sharing contents) staged through the same
+        # store handle, that other directory rewritten on disk, then the kept staging transferred
+        s_ = rng.choice(["A", "B", "G"])
+        ops.append({"op": "stage_defer", "tree": 0, "store": s_})
+        ops.append({"op": "stage_defer", "tree": 1, "store": s_})
+        for _ in range(3):
+            ops.append({"op": "edit_disk", "tree": 1, "pick": rng.random(), "tag": rng.randrange(10**6), "abandon": True})
+        ops.append({"op": "xfer_deferred", "pick": 0.0})
+        if prop == "C02":
+            ops.append({"op": "checkout", "store": s_, "tree": 0, "link": "copy", "with_state": False, "via": "obj",
+                        "reuse_dest": False, "twice": False})
     return {"prop": prop, "cfg": cfg, "contents": [gen.enc(b) for b in pool], "trees": trees, "ops": ops}
 
 
@@ -261,6 +284,7 @@ class Hist:
         self.co_n = 0
         self.bad_seen = set()
         self.ext_added = set()
+        self.deferred = []
 
     def st(self):
         if self.state is None:
@@ -479,6 +503,8 @@ def op_stage(h, op, n):
     fired0 = sum(ctx.seam.fired.values())
     edited = []
     me = op.get("mid_edit") if (op.get("upload") and ctx.prop == "C01") else None
+    if any(d["tree"] == op["tree"] for d in h.deferred):
+        me = None
     if me:
         # upload staging hashes the very stream it copies, so a concurrent editor can change what is
         # stored but never make the store file bytes under another content's name
@@ -872,6 +898,8 @@ def op_checkout(h, op, n):
 
 
 def op_edit(h, op, n):
+    if any(d["tree"] == op["tree"] for d in h.deferred):
+        return None  # its workspace directory is referred to by a staging that has not been transferred yet
     t = h.trees[op["tree"]]
     name = op["name"]
     if any(k == name or k.startswith(name + "/") or name.startswith(k + "/") for k in t if k != name):
@@ -894,6 +922,56 @@ def op_evict(h, op, n):
     return None
 
 
+def op_stage_defer(h, op, n):
+    from dvc_data.hashfile.build import build
+
+    s = op["store"]
+    odb = h.odb(s)
+    ws = h.write_ws(op["tree"])
+    staging, meta, obj = build(odb, ws, h.w.localfs, STORES[s]["hash"], checksum_jobs=h.cfg["jobs"])
+    h.deferred.append({"store": s, "tree": op["tree"], "staging": staging, "obj": obj, "bytes": dict(h.tree_bytes(op["tree"]))})
+    h.ctx.probe("staging_kept_for_a_later_transfer")
+    return None
+
+
+def op_xfer_deferred(h, op, n):
+    from dvc_data.hashfile.transfer import transfer
+
+    if not h.deferred:
+        return None
+    d = h.deferred.pop(int(op["pick"] * len(h.deferred)) % len(h.deferred))
+    odb = h.odb(d["store"])
+    r = transfer(d["staging"], odb, {d["obj"].hash_info}, shallow=False, jobs=h.cfg["jobs"])
+    if not r.failed:
+        doid, _ = model.ref_dir({rel: model.ref_digest("md5", b) for rel, b in d["bytes"].items()})
+        h.complete.setdefault(d["store"], {})[doid] = (d["tree"], d["bytes"])
+    return {"nt_c02": False}
+
+
+def op_edit_disk(h, op, n):
+    ti = op["tree"]
+    if h.ws_written.get(ti) is None:
+        return None
+    if any(d["tree"] == ti for d in h.deferred):
+        if not op.get("abandon"):
+            return None  # a staged-but-not-yet-transferred directory is left alone (hash-then-copy is not atomic)
+        # ... unless its staging is given up: it will never be transferred
+        h.deferred = [d for d in h.deferred if d["tree"] != ti]
+        h.ctx.probe("staging_abandoned_after_edit")
+    path = h.w.p(f"ws{ti}")
+    rels = sorted(h.ws_written[ti])
+    rel = rels[int(op["pick"] * len(rels)) % len(rels)]
+    fp = os.path.join(path, rel)
+    REAL["os.unlink"](fp)
+    with REAL["open"](fp, "wb") as f:
+        f.write(b"rewritten-on-disk-%d\n" % op["tag"])
+    h.ctx.clock.advance(10**9)
+    h.ctx.seam.stamp(fp)
+    h.ws_written[ti] = None  # the next staging of this tree writes the model's bytes again
+    h.ctx.probe("workspace_file_rewritten_on_disk")
+    return None
+
+
 def op_ext_add(h, op, n):
     s = op["store"]
     algo = STORES[s]["hash"]
@@ -906,7 +984,7 @@ def op_ext_add(h, op, n):
 
 
 OPS = {
-    "ext_add": op_ext_add,
+    "ext_add": op_ext_add, "stage_defer": op_stage_defer, "xfer_deferred": op_xfer_deferred, "edit_disk": op_edit_disk,
     "stage": op_stage, "stage_file": op_stage_file, "xfer": op_xfer, "index_save": op_index_save,
     "migrate": op_migrate, "gc": op_gc, "checkout": op_checkout, "edit": op_edit, "evict": op_evict,
 }  # fmt: skip
